@@ -50,10 +50,10 @@ Proof. exact StoreRefine.c01_refines_sorted_map. Qed.
 Print Assumptions c12_history.
 
 (* ---------------------------------------------------------------------------------------------- *)
-(* REGENERATED FROM THE SOURCE ON EVERY RUN (tools/gen -> Generated.g_code; Decisions.v): the decisions the model
+(* REGENERATED FROM THE SOURCE ON EVERY RUN (tools/gen -> Generated.g_code; DecBase.v, Dec*.v): the decisions the model
    takes at these points are the evaluations of the conditions the Go source has there, for all values of their
    variables. *)
-From GK Require Import GExpr Generated Decisions.
+From GK Require Import GExpr Generated DecBase DecCompare.
 From Coq Require Import String.
 
 (* SetCollection: a nil comparator means bytes.Compare *)
@@ -62,5 +62,5 @@ Theorem c12_nil_compare_is_default_is_source :
   | SIf [] (GBin "==" (GVar "compare") GNil) [SAssign [GVar "compare"] "=" [GVar "bytes.Compare"]] [] :: _ => True
   | _ => False
   end.
-Proof. exact Decisions.nil_compare_is_default. Qed.
+Proof. exact DecCompare.nil_compare_is_default. Qed.
 Print Assumptions c12_nil_compare_is_default_is_source.
